@@ -631,3 +631,36 @@ package board
 //@   loop 1: invariant kMvs & ^pre(kMvs) == 0 && implies(bit(b.Pieces[6] & b.Colors[b.STM], gmFrom()) && bit(pre(kMvs) &^ kMvs, Square(gm & 63)), !legal(pos(b), gmv()))
 //@   loop 2: invariant defenders & ^pre(defenders) == 0 && onehot(attacker) && opp == b.Colors[b.STM^1] &^ ite(defenders == pre(defenders), BitBoard(0), attacker) && implies(bit(pre(defenders) &^ defenders, gmFrom()) && Square(gm & 63) == attacker.LowestSet() && !(b.EnPassant != 0 && Square(gm & 63) == b.EnPassant && bit(b.Pieces[1], gmFrom())), !legal(pos(b), gmv()))
 //@   loop 3: invariant defenders & ^pre(defenders) == 0 && implies(bit(pre(defenders) &^ defenders, gmFrom()) && bit(blocked, Square(gm & 63)), !legal(pos(b), gmv()))
+//@
+//@ # ---- `pv` views (C07).  The PV argument only needs the abstract state machine of the board: gbs is a
+//@ # ---- ghost naming the abstract state (BS) of the board being searched; making / undoing moves act
+//@ # ---- on it through the functions mkS / unmkS / nullS / unnullS of the `search` views (same trusted
+//@ # ---- definitions, same C03 round trips), and the legality filter's test is a function of it.  That
+//@ # ---- the search functions restore the real board on every path is C06 (clause `board`).
+//@ ghost gbs $BS
+//@ func (*Board).MakeMove view pv
+//@   trusted definition of mkS/tokS on the ghost state; the round-trip instance is property C03 (scenario board.makeUndo)
+//@   ensures gbs == mkS(old(gbs), uint16(m)) && uint64(result) == tokS(old(gbs), uint16(m)) && uint8(b.STM) == bstm(gbs)
+//@   ensures unmkS(mkS(old(gbs), uint16(m)), uint16(m), tokS(old(gbs), uint16(m))) == old(gbs)
+//@   modifies b.*, gbs
+//@
+//@ func (*Board).UndoMove view pv
+//@   trusted definition of unmkS on the ghost state
+//@   ensures gbs == unmkS(old(gbs), uint16(m), uint64(r))
+//@   modifies b.*, gbs
+//@
+//@ func (*Board).MakeNullMove view pv
+//@   trusted definition of nullS/nullTok on the ghost state; round trip: scenario board.nullMoveRoundTrip (C03)
+//@   ensures gbs == nullS(old(gbs)) && uint64(result) == nullTok(old(gbs))
+//@   ensures unnullS(nullS(old(gbs)), nullTok(old(gbs))) == old(gbs)
+//@   modifies b.*, gbs
+//@
+//@ func (*Board).UndoNullMove view pv
+//@   trusted definition of unnullS on the ghost state
+//@   ensures gbs == unnullS(old(gbs), uint64(r))
+//@   modifies b.*, gbs
+//@
+//@ func (*Board).InCheck view pv
+//@   trusted definition: inCheckS names InCheck's answer as a function of the abstract board state (InCheck reads only the board and writes nothing - main contract)
+//@   ensures result == inCheckS(gbs, uint8(who))
+//@   modifies nothing
